@@ -12,7 +12,7 @@ def thresholds(pts, cost, tier, rng):
     ts = {0.5, 0.1, 0.01}
     ranges = [(0, n)] + [(l, r) for l in range(n) for r in range(l + 3, n + 1)]
     if len(ranges) > 12:
-        ranges = [(0, n)] + rng.sample(ranges[1:], 11 if tier == "quick" else 40)
+        ranges = [(0, n)] + rng.sample(ranges[1:], min(len(ranges) - 1, 11 if tier == "quick" else 40))
     for l, r in ranges:
         c = float(seg_cost(pts, l, r, cost))
         if np.isfinite(c) and c > 0 and (cost is not metrics.Metrics.r2 or c <= 1):
